@@ -88,6 +88,20 @@ def check_binary(ctx, case):
             except Exception as e:
                 res, exc = None, e
             inside_payload = k >= H and ((k - H) % rec >= 4 if not chunked else (k - H) % rec != 0)
+            if inside_payload and case['fmt'] in ('qtop_sfqcd', 'qtop_openqcd') and 2 <= m < len(cfgs) and not chunked:
+                # the caller asks for the configuration of the cut record itself (r_stop = its number): still refused, never returned
+                case3 = dict(case, sel={'r_stop_at': {str(r): m}})
+                case3['reps'] = dict(case['reps'])
+                case3['reps'][str(r)] = cfgs[:m + 1]
+                try:
+                    res3 = c17.read_and_expect(ctx, case3, root, info)
+                    got3 = res3[0][1]
+                    lbl = [n_ for n_ in got3 if n_.endswith('|r%d' % r)]
+                    if lbl and len(got3[lbl[0]]) > m:
+                        probs.append(('violation', 'truncated-record-returned:' + case['fmt'], 'cut at byte %d of %s inside record %d; with r_stop at that record it is returned as a sample' % (k, fn, m + 1)))
+                except Exception:
+                    pass
+                ctx.count('r_stop-at-cut-record')
             if exc is None:
                 for label, got, exp in res:
                     d = c17.cmp_tab(got, exp, label)
